@@ -922,6 +922,13 @@ class SupplyChainNode(object):
 					pred_obj = self.network.nodes_by_index[pred_ind]
 					if rm_ind in pred_obj.product_indices:
 						break
+				# Prefer a predecessor that actually supplies the raw material for this product (i.e., whose NBOM is positive),
+				# if there is one; the first predecessor that handles the raw material need not be one.
+				for alt_pred_ind in self.predecessor_indices(include_external=False):
+					if rm_ind in self.network.nodes_by_index[alt_pred_ind].product_indices and \
+						self._network_bill_of_materials[prod_ind].get(alt_pred_ind, {}).get(rm_ind, 0) > 0:
+						pred_ind = alt_pred_ind
+						break
 				# pred_obj = [pred for pred in self.predecessors(include_external=False) if rm_ind in pred.product_indices][0]
 				# pred_ind = pred_obj.index
 
